@@ -109,7 +109,24 @@ def transform_rename_locals(root: str):
         py_compile.compile(p, cfile=os.path.join(root, ".pyc_check"), doraise=True)
 
 
-TRANSFORMS = {"unparse": transform_unparse, "rename-locals": transform_rename_locals}
+def transform_reorder_methods(root: str):
+    """Reverse the order of the methods of every class (and of the generated rule methods): positions change, nothing else."""
+    import ast
+    for rel in RUNTIME_FILES:
+        p = os.path.join(root, rel)
+        mod = ast.parse(open(p, encoding="utf-8").read())
+        for cls in [n for n in mod.body if isinstance(n, ast.ClassDef)]:
+            if any(isinstance(b, ast.ClassDef) for b in cls.body) or cls.name in ("Token", "TokenInfo", "Target", "ModeMiddle", "ModeInBraces", "ModeInColon", "EndProg"):
+                continue
+            idx = [i for i, b in enumerate(cls.body) if isinstance(b, ast.FunctionDef)]
+            funcs = [cls.body[i] for i in idx][::-1]
+            for i, f in zip(idx, funcs):
+                cls.body[i] = f
+        open(p, "w", encoding="utf-8").write(ast.unparse(mod) + "\n")
+        py_compile.compile(p, cfile=os.path.join(root, ".pyc_check"), doraise=True)
+
+
+TRANSFORMS = {"unparse": transform_unparse, "rename-locals": transform_rename_locals, "reorder-methods": transform_reorder_methods}
 
 
 def run_check(pid: str, root: str, work: str, tier: str = "quick") -> tuple[int, str]:
@@ -162,6 +179,7 @@ def load_mutants() -> list[dict]:
     allp = ["C%02d" % i for i in range(1, 19) if i != 17]
     out.append({"name": "benign-global-unparse-roundtrip", "property": "ALL", "transform": "unparse", "expect": "silent", "checks": allp})
     out.append({"name": "benign-global-rename-locals", "property": "ALL", "transform": "rename-locals", "expect": "silent", "checks": allp})
+    out.append({"name": "benign-global-reorder-methods", "property": "ALL", "transform": "reorder-methods", "expect": "silent", "checks": allp})
     seeded = os.path.join(VERIF, "seeded")
     if os.path.isdir(seeded):
         for d in sorted(os.listdir(seeded)):
